@@ -12,7 +12,7 @@ CIRCLE_SKY = 'regions/shapes/circle.py::CircleSkyRegion'
 POLY_SKY = 'regions/shapes/polygon.py::PolygonSkyRegion'
 
 VALUES = ('pos', 'nonpos', 'posint', 'zeroint', 'nan', 'inf', 'ninf', 'str', 'none', 'list', 'tuple', 'arr0', 'arr1', 'bool',
-          'q_pix', 'q_sr_pos', 'q_deg_pos', 'q_deg_nonpos', 'q_deg_inf', 'q_deg_nan', 'q_rad_any', 'q_deg_arr', 'pix_scalar', 'pix_arr1', 'pix_arr2',
+          'q_pix', 'q_dimensionless', 'q_sr_pos', 'q_deg_pos', 'q_deg_nonpos', 'q_deg_inf', 'q_deg_nan', 'q_rad_any', 'q_deg_arr', 'pix_scalar', 'pix_arr1', 'pix_arr2',
           'sky_scalar', 'sky_arr1', 'sky_arr2', 'dict')
 
 
@@ -56,6 +56,8 @@ def make_value(B, kind):
         return True
     if kind == 'q_pix':
         return B.quantity('vq', 'pix')
+    if kind == 'q_dimensionless':
+        return B.quantity('vq', 'dimensionless_unscaled')            # a pure number: convertible to an angle only under astropy's optional dimensionless_angles equivalency
     if kind == 'q_sr_pos':
         q = B.quantity('vq', 'sr')            # a solid angle is not an angle
         B.assume(q.value > 0)
